@@ -163,6 +163,14 @@ pub fn generate(prop: &str, _tier: Tier, rng: &mut Rng, _idx: u64) -> Case {
             }
             finish_case(g, "conformant-ops+quota-probe")
         }
+        "C09" if _idx % 8 == 5 => crate::profiles::qos2_resume(rng),
+        "C01" if _idx % 16 == 9 => {
+            // what a resumed session re-sends is also "written by the client": judged for
+            // well-formedness only
+            let mut c = crate::profiles::resume(rng);
+            c.profile = "codec-out/resumed-session";
+            c
+        }
         "C07" | "C08" | "C09" => {
             let mut cfg = GenCfg::inbound(rng);
             if prop == "C09" {
@@ -396,7 +404,11 @@ pub fn judge(prop: &str, sc: &Scenario, aux: Option<&Scenario>) -> Judged {
             }
         }
         "C01" => {
-            viols.extend(crate::codec::c01(&a, sc));
+            if sc.steps.iter().any(|s| matches!(s, Step::Reconnect { .. })) {
+                viols.extend(oracle::wire_wellformed(&a, "C01"));
+            } else {
+                viols.extend(crate::codec::c01(&a, sc));
+            }
             for p in &a.wire {
                 use crate::refcodec::Packet as P;
                 let key: (u8, Vec<u8>, usize) = match &p.pkt {
